@@ -303,6 +303,65 @@ func runRich(w *harness.W, s string, width int) {
 		}
 	})
 	finish(w, wc, in, ids, lines, ok, val, stack, panicked)
+	if !panicked && ok && width > 0 {
+		// the caller's cells are the scanner's input, not its scratch space
+		for i, c := range in {
+			if cells[i].Character != c {
+				w.Violation("rich-softwrap:input-modified", fmt.Sprintf("scanning %q at width %d changed input cell %d from %q to %q", s, width, i, c.Grapheme, cells[i].Grapheme), wc, cells[i].Grapheme, c.Grapheme)
+				return
+			}
+		}
+		richDrawCheck(w, wc, in, lines)
+	}
+}
+
+// richDrawCheck: RichText.Draw rows (graphemes and their styles) equal the
+// lines the scanner emits on fresh input.
+func richDrawCheck(w *harness.W, wc wcase, in []vaxis.Character, lines []line) {
+	if len(lines) == 0 || len(lines) > 200 {
+		return
+	}
+	segs := make([]vaxis.Segment, len(in))
+	for i, c := range in {
+		segs[i] = vaxis.Segment{Text: c.Grapheme, Style: vaxis.Style{Foreground: vaxis.RGBColor(uint8(i>>16), uint8(i>>8), uint8(i))}}
+	}
+	t := richtext.New(segs)
+	dctx := vxfw.DrawContext{Max: vxfw.Size{Width: uint16(wc.Width), Height: uint16(len(lines) + 5)}, Characters: vaxis.Characters}
+	var sf vxfw.Surface
+	val, stack, panicked := harness.Recover(func() { sf, _ = t.Draw(dctx) })
+	w.Count("rich_draws", 1)
+	if panicked {
+		w.ViolationStack("panic:"+harness.PanicKey(val, stack), "RichText.Draw panicked: "+val, wc, val, "no panic", stack)
+		return
+	}
+	// segments of one grapheme each may segment differently from the whole
+	// string only where graphemes merge; the alphabet is non-merging
+	if int(sf.Size.Height) != len(lines) {
+		w.Violation("rich-draw:rows", fmt.Sprintf("RichText.Draw of %q at width %d has %d rows, the scanner emits %d lines", wc.Text, wc.Width, sf.Size.Height, len(lines)), wc, fmt.Sprint(sf.Size.Height), fmt.Sprint(len(lines)))
+		return
+	}
+	for r, l := range lines {
+		col := 0
+		for k, c := range l.g {
+			if col >= int(sf.Size.Width) {
+				break
+			}
+			if isSpaceG(c.Grapheme) || c.Width == 0 {
+				col += c.Width
+				continue
+			}
+			cell := sf.Buffer[r*int(sf.Size.Width)+col]
+			id := -1
+			if p := cell.Style.Foreground.Params(); len(p) == 3 {
+				id = int(p[0])<<16 | int(p[1])<<8 | int(p[2])
+			}
+			if cell.Grapheme != c.Grapheme || (k < len(l.id) && id != l.id[k]) {
+				w.Violation("rich-draw:row-content", fmt.Sprintf("row %d of RichText.Draw(%q, width %d) shows %q (style id %d) at column %d, the emitted line has %q (style id %d)", r, wc.Text, wc.Width, cell.Grapheme, id, col, c.Grapheme, l.id[k]), wc, cell.Grapheme, c.Grapheme)
+				return
+			}
+			col += c.Width
+		}
+	}
 }
 
 func runHard(w *harness.W, s string) {
